@@ -495,15 +495,18 @@ def _uniquify(ctx, text):
             elif kind == 'Identifier' and nxt == 'Hash' and tx.lower() not in ('t', 'd'): expect.append(tx)      # type name of a typed literal / enumeration value
     return ''.join(out), expect
 
-def _ids_in_order(M, v, out):
+def _ids_in_order(M, v, out, spans=None):
     if isinstance(v, Agg) and v.name.split('::')[-1] == 'Id' and len(v.f) == 3 and isinstance(v.f[0], Str):
-        out.append(v.f[0].conc()); return
+        out.append(v.f[0].conc())
+        if spans is not None:
+            sp = v.f[2]; spans.append((v.f[0].conc(), simp(sp.f[0]), simp(sp.f[1]), sp.f[2].f[0].conc() if isinstance(sp.f[2], Agg) and sp.f[2].f and isinstance(sp.f[2].f[0], Str) else None))
+        return
     if isinstance(v, (Agg, EnumV)):
         order = FIELD_ORDER.get(v.name.split('::')[-1]) if isinstance(v, Agg) else None
-        for x in ([v.f[i] for i in order] if order and len(order) == len(v.f) else v.f): _ids_in_order(M, x, out)
+        for x in ([v.f[i] for i in order] if order and len(order) == len(v.f) else v.f): _ids_in_order(M, x, out, spans)
     elif isinstance(v, VecV):
-        for x in v.items: _ids_in_order(M, x, out)
-    elif isinstance(v, Ref): _ids_in_order(M, M.get(v.cell, v.path), out)
+        for x in v.items: _ids_in_order(M, x, out, spans)
+    elif isinstance(v, Ref): _ids_in_order(M, M.get(v.cell, v.path), out, spans)
 
 # structs of ironplc_dsl whose fields are not declared in the order their parts are written (read from dsl/src/textual.rs: `Repeat { until, body }` is written `REPEAT body UNTIL until`)
 FIELD_ORDER = {'Repeat': [1, 0]}
@@ -539,7 +542,7 @@ def _all_templates():
 def _k6_job(job):
     name, prefixes = job
     from . import C10 as K10
-    ctx = _CTX; part = Part(); part.shapes = {}; part.tname = name; tpl = _all_templates()[name]
+    ctx = _CTX; part = Part(); part.shapes = {}; part.span_shapes = {}; part.tname = name; tpl = _all_templates()[name]
     P = ctx.program()
     k_parse = P.find_fn('ironplc-parser', 'parse_program')
     k_opt = [k for k in P.items if k[0] == 'ironplc-parser' and re.search(r'ParseOptions as (std::default::)?Default>::default|options::<impl at [^>]*>::default', k[1])]
@@ -561,16 +564,23 @@ def _k6_job(job):
         opts = Ref(Cell(M.call_fn(k_opt[0], []) if k_opt else Agg('ParseOptions', [False])))
         r1 = M.call_fn(k_parse, [Ref(Cell(Str(text))), fid, opts])
         if r1.disc != 0: return None
-        out = []; _ids_in_order(M, r1.f[0], out)
+        out = []; spans = []; _ids_in_order(M, r1.f[0], out, spans); st['spans'] = spans
         return out
     def on_path(M, pr):
         part.paths += 1
         src = st.get('src'); choice = tuple(st.get('choice') or ())
-        if pr.inconclusive: part.inconc('%s: %s' % (name, pr.inconclusive)); part.shapes[choice] = ('inconclusive', pr.inconclusive[:80], src, None); return
-        if pr.panic: part.shapes[choice] = ('fail', 'parse_program panics: %s' % pr.panic.msg[:80], src, None); part.nontrivial += 1; return
+        if pr.inconclusive: part.inconc('%s: %s' % (name, pr.inconclusive)); part.shapes[choice] = ('inconclusive', pr.inconclusive[:80], src, None); part.span_shapes[choice] = part.shapes[choice]; return
+        if pr.panic: part.shapes[choice] = ('fail', 'parse_program panics: %s' % pr.panic.msg[:80], src, None); part.span_shapes[choice] = ('inconclusive', 'panic', src, None); part.nontrivial += 1; return
         got = pr.result
-        if got is None: part.shapes[choice] = ('outside', None, src, None); return
+        if got is None: part.shapes[choice] = ('outside', None, src, None); part.span_shapes[choice] = ('outside', None, src, None); return
         part.nontrivial += 1
+        # C05-K3: the span of every (unique) identifier is exactly its occurrence in the source, in the file parsed
+        wrong = []
+        for nm, a, b, fid in st.get('spans', []):
+            if not re.fullmatch(r'nm\d+q', nm): continue
+            i = src.find(nm)
+            if (a, b) != (i, i + len(nm)) or (fid is not None and fid != 'f.st'): wrong.append((nm, a, b, fid))
+        part.span_shapes[choice] = ('fail', 'identifiers whose span is not their occurrence in the source (name, start, end, file): %s' % wrong[:3], src, json.dumps(wrong[:3])) if wrong else ('ok', None, src, None)
         want = st['expect']
         # only the (uniquified) identifiers are compared: elementary type keywords are represented differently from construct to construct
         got = [g for g in got if re.fullmatch(r'nm\d+q', g)]; want = [w for w in want if re.fullmatch(r'nm\d+q', w)]
